@@ -66,9 +66,7 @@ func (ctx *Context) FindRedirects() {
 			ctx.Fatalf("failed to parse %s: %v", file, err)
 		}
 
-		cmap := ast.NewCommentMap(fset, f, f.Comments)
-		cmap.Filter(f)
-		for node := range cmap {
+		for _, node := range f.Decls {
 			decl, ok := node.(*ast.FuncDecl)
 			if !ok || decl.Doc == nil {
 				continue
